@@ -751,8 +751,6 @@ func (m *Nitro) Visitor(snap *Snapshot, callb VisitorCallback, shards int, concu
 	var wg sync.WaitGroup
 	var pivotItems []*Item
 
-	wch := make(chan int, shards)
-
 	if snap == nil {
 		panic("snapshot cannot be nil")
 	}
@@ -785,6 +783,9 @@ func (m *Nitro) Visitor(snap *Snapshot, callb VisitorCallback, shards int, concu
 	}()
 
 	errors := make([]error, len(pivotItems)-1)
+	// One slot per range partition so that feeding work never blocks,
+	// even if all workers have exited early on a callback error
+	wch := make(chan int, len(pivotItems)-1)
 
 	// Run workers
 	for i := 0; i < concurrency; i++ {
